@@ -122,6 +122,30 @@ func runC14(cfg config) {
 	for i := 0; i < nStr; i++ {
 		strs = append(strs, c14Rand(r, 12))
 	}
+	// receivers written as LITERALS (the other cases hand the receiver over as a variable): backslashes, quotes and
+	// \uXXXX escapes, also an escaped backslash in front of the letters of an escape
+	for _, ls := range []struct{ lit, s string }{
+		{`'a\\u00e9'`, "a\\u00e9"}, {`'x\u005cn'`, "x\\n"}, {`'\\n'`, "\\n"}, {`'\\\\'`, "\\\\"}, {`'\u00e9\\u00e9'`, "é\\u00e9"}, {`'a\'b'`, "a'b"}, {`'\\'`, "\\"}, {`'\\\''`, "\\'"},
+		{`'\u0041\\\u0041'`, "A\\A"}, {`'tab\\t'`, "tab\\t"}, {`'\uD83D\uDE00\\uD83D'`, "😀\\uD83D"}, {`'plain'`, "plain"}, {`'é😀'`, "é😀"},
+	} {
+		lq := coqUStr(ls.s)
+		for _, f := range []struct {
+			ctor, call string
+			chars      bool
+		}{{"CLength " + lq, ".length()", false}, {"CToChars " + lq, ".toChars()", true}, {"CIndexOf " + lq + " " + coqUStr("u"), ".indexOf('u')", false},
+			{"CContains " + lq + " " + coqUStr("\\"), ".contains('\\\\')", false}, {"CUpper " + lq, ".upper()", false}} {
+			var out system.Collection
+			var err error
+			panicked, _ := protect(func() {
+				var e *fhirpath.Expression
+				e, err = fhirpath.Compile(ls.lit + f.call)
+				if err == nil {
+					out, err = verifhook.Evaluate(e, input)
+				}
+			})
+			sink.add(f.ctor+", "+render(out, err, panicked, f.chars), fmt.Sprintf("%s%s  [literal receiver, s=%q]", ls.lit, f.call, ls.s), "literal", "literal|"+ls.lit+f.call)
+		}
+	}
 	for _, s := range strs {
 		rs := []rune(s)
 		n := len(rs)
